@@ -225,6 +225,10 @@ CmdCases == {
   Case(Prelude \o <<Asrt(p), L(<<A("check-sat-assuming"), L(<<p, Ap("not", <<q>>)>>)>>)>>, "accept", "check-sat-assuming"),
   Case(Prelude \o <<L(<<A("declare-sort"), A("U"), Nm(0)>>), DeclFun("e1", <<>>, A("U")), DeclFun("h", <<A("U")>>, A("U")),
                    Asrt(Eq(Ap("h", <<A("e1")>>), A("e1")))>>, "accept", "declare-sort"),
+  \* names that need quoting in the positions of a sort name, a defined function and its parameters
+  Case(Prelude \o <<L(<<A("declare-sort"), A("My Sort"), Nm(0)>>), DeclFun("e1", <<>>, A("My Sort")), DeclFun("h h", <<A("My Sort")>>, A("My Sort")),
+                   Asrt(Eq(Ap("h h", <<A("e1")>>), A("e1")))>>, "accept", "declare-sort-quoted-name"),
+  Case(Prelude \o <<DefFun("a b", <<<<"p q", SInt>>>>, SInt, SPlus(A("p q"), Nm(1))), Asrt(Lt(Ap("a b", <<x>>), y))>>, "accept", "define-fun-quoted-names"),
   Case(Prelude \o <<L(<<A("define-sort"), A("Word"), L(<<>>), BVs(4)>>), DeclFun("w1", <<>>, A("Word")), Asrt(Eq(A("w1"), b))>>, "accept", "define-sort"),
   Case(Prelude \o <<L(<<A("define-sort"), A("AI"), L(<<A("T")>>), ArrS(SInt, A("T"))>>), DeclFun("ai", <<>>, L(<<A("AI"), SInt>>)), Asrt(Eq(A("ai"), a))>>,
        "accept", "define-sort-parametric"),
